@@ -78,6 +78,10 @@ EXPLANATION += (
     ' Round 8: sparse rows are densified by column index, not by position (R-SAMEVAL/placed-by-index, rule of C05).'
 )
 
+EXPLANATION += (
+    ' convert_to_cpm returns 10^6 * data / row total on every path and both conversions take log2 of 1 + that (R-ARITH/cpm).'
+)
+
 RULE_TEXT = (
     "one obligation per dominance / typestate / provenance relation named "
     "above")
@@ -103,6 +107,7 @@ def check(ctx):
     R.check_writer_roles(ctx, w)
     R.check_cosort(ctx, w)
     check_cpm_denominator(ctx)
+    check_cpm_formula(ctx)
     # the non-negativity probe scans the whole matrix: its chunked loops
     # tile both axes exactly (shared with C05 / C16)
     from .C05 import check_tiles
@@ -597,3 +602,113 @@ def check_cpm_denominator(ctx):
     if n == 0:
         raise AnalysisError('convert_to_cpm: no division by the row sums '
                             'found')
+
+
+def check_cpm_formula(ctx, rule='R-ARITH/cpm'):
+    """every return of convert_to_cpm is, as a rational function of the
+    data and of its row totals,  10^6 * data / total  (transpositions,
+    which only line the totals up with the rows, and the replacement of
+    zero totals looked through); both log2(CPM+1) conversions of the
+    matrix class take log2 of exactly  1 + convert_to_cpm(data).  Any other
+    degree in the data (a total that is squared, a constant that is
+    added before dividing) makes the result depend on the scale of the
+    counts."""
+    from ..core import poly as P
+    db = ctx.db
+    fi = db.fn('cell_by_gene.utils:convert_to_cpm')
+    ctx.touch(fi)
+    cfg = cfg_of(fi)
+    rd = rd_of(fi)
+    ex = Expander(fi)
+    DATA = P.atom(('param', 'data'))
+    TOT = P.atom(('ROWSUM',))
+
+    def atoms(t):
+        if not (isinstance(t, tuple) and t):
+            return None
+        if t[0] == 'call':
+            nm = T.call_name(t)
+            if nm in ('transpose', 't'):
+                inner = T.call_receiver(t)
+                if nm == 't' or inner is None or (
+                        isinstance(inner, tuple) and inner[0] == 'name'):
+                    inner = t[2][0] if t[2] else inner
+                return _poly_or_none(inner)
+            if nm == 'sum' and t[2] and t[2][0] == ('param', 'data'):
+                return TOT
+        return None
+
+    def _poly_or_none(inner):
+        try:
+            return P.poly(inner, atoms)
+        except P.NotPolynomial:
+            return None
+    want = (P._mul(P.const(10 ** 6), DATA), TOT)
+    n = 0
+    for r in cfg.nodes:
+        if r.kind != 'return' or r.id not in rd.live \
+                or r.ast.value is None:
+            continue
+        t = ex.expand(r.ast.value, r.id)
+        n += 1
+        try:
+            got = _ratio_through(t, atoms, P)
+            ok = P.same_ratio(got, want)
+        except P.NotPolynomial:
+            ok = False
+        ctx.ob(rule, f'{fi.qual}:return#{n - 1}', fi.loc(r.ast), ok,
+               'counts per million: 10^6 * data / row total' if ok else
+               f'convert_to_cpm returns {fmt_term(t)[:100]}, which is not '
+               '10^6 * data / (row total)')
+    if n < 1:
+        raise AnalysisError('convert_to_cpm: no return found')
+    ci = db.cls('cell_by_gene.cell_by_gene:CellByGeneMatrix')
+    m = 0
+    for mname in ('to_log2CPM', 'to_log2CPM_in_place'):
+        f2 = ci.methods.get(mname)
+        if f2 is None:
+            raise AnalysisError(f'CellByGeneMatrix.{mname} not found')
+        ctx.touch(f2)
+        for c in ast.walk(f2.node):
+            if isinstance(c, ast.Call) and isinstance(
+                    c.func, ast.Attribute) and c.func.attr == 'log2':
+                m += 1
+                a = c.args[0] if c.args else None
+                ok = False
+                if isinstance(a, ast.BinOp) and isinstance(a.op, ast.Add):
+                    sides = [a.left, a.right]
+                    one = [x for x in sides if isinstance(
+                        x, ast.Constant) and x.value == 1]
+                    cpm = [x for x in sides if isinstance(x, ast.Call)
+                           and getattr(x.func, 'id', getattr(
+                               x.func, 'attr', None)) == 'convert_to_cpm'
+                           and len(x.args) == 1 and unparse(
+                               x.args[0]) in ('self.data', 'self._data')]
+                    ok = len(one) == 1 and len(cpm) == 1
+                ctx.ob(rule, f'{f2.qual}:log2#{m - 1}', f2.loc(c), ok,
+                       'log2(1 + CPM) of the matrix\'s own data' if ok else
+                       f'`{unparse(c)[:70]}` is not log2(1 + '
+                       'convert_to_cpm(self.data))')
+    if m < 2:
+        raise AnalysisError('the log2(CPM+1) conversions were not found')
+
+
+def _ratio_through(t, atoms, P):
+    """ratio() that looks through transpositions at the top as well"""
+    while isinstance(t, tuple) and t and t[0] == 'call' and T.call_name(
+            t) in ('transpose', 't'):
+        rc = T.call_receiver(t)
+        if T.call_name(t) == 't' or rc is None or (
+                isinstance(rc, tuple) and rc and rc[0] == 'name'):
+            t = t[2][0]
+        else:
+            t = rc
+    if isinstance(t, tuple) and t and t[0] == 'binop' and t[1] in (
+            'Mult', 'Div'):
+        a = _ratio_through(t[2], atoms, P)
+        b = _ratio_through(t[3], atoms, P)
+        if t[1] == 'Mult':
+            return P._mul(a[0], b[0]), P._mul(a[1], b[1])
+        return P._mul(a[0], b[1]), P._mul(a[1], b[0])
+    t = P.strip_guard(t)
+    return P.ratio(t, atoms)
